@@ -160,8 +160,10 @@ SCHEME_ARGS = ["http", "https", "HTTP", "ws", "wss", "ftp", "file", "x", "", "ma
 
 def rand_qvar(rng):
     r = rng.random()
-    if r < 0.6:
+    if r < 0.55:
         return rng.choice(TEXTS)
+    if r < 0.6:
+        return ["strsub", rng.choice(TEXTS)]
     if r < 0.8:
         return rng.choice([0, 1, -1, 42, 10 ** 12])
     if r < 0.94:
